@@ -78,7 +78,7 @@ def build_p2_unit(ctx):
     def x_init(r):
         r.sub("container-resize->model", r"\bsquares\.resize\(", "squares_resize(self, ", 1)
         r.sub("container-resize->model", r"\bbinStart\.resize\(", "binStart_resize(self, ", 1)
-        r.sub("implicit-this-call", r"\baddTriangle\(", "addTriangle(self, ", 1)
+        r.sub("implicit-this-call (INIT_ADDTRIANGLE = addTriangle, or its argument recorder in the levels units)", r"\baddTriangle\(", "INIT_ADDTRIANGLE(self, ", 1)
         r.sub("container-access->bounds-checked", r"\bbinStart\[([^\]]+)\]", r"(*binStart_ref(self, \1))", 2)
         r.sub("libm", r"std::floor\(", "floor(", 1)
         r.members(["gridSize"])
@@ -139,14 +139,22 @@ def main(ctx):
     jobs.append(lambda: cbmc_unit(ctx, "pe.partition", [pe_c], "h_partition", no_dfcc=True, cbmc_args=["--div-by-zero-check"], min_obligations=2,
                                   function="threadBody (stripes partition the index range)", timeout=120))
     # Parallel2DExecutor: one unit per levels value (numProcessors range), everything else symbolic
-    P2CHK = ["--signed-overflow-check", "--div-by-zero-check", "--bounds-check", "--pointer-check", "--conversion-check", "--unwinding-assertions"]
-    for lo, hi in [(0, 1), (2, 2), (3, 4), (5, 8), (9, 16), (17, 32)]:
-        jobs.append(lambda lo=lo, hi=hi: cbmc_unit(ctx, "p2.init.np%d_%d" % (lo, hi), [p2_c], "h_init", no_dfcc=True,
-                                                   cc_args=["-DNP_LO=%d" % lo, "-DNP_HI=%d" % hi, "-DBLK=4"], cbmc_args=P2CHK + ["--unwind", "2050"],
-                                                   min_obligations=12, require_props=[r"h_init\.assertion"], function="Parallel2DExecutorImpl::init/addSquare/addTriangle", timeout=280,
-                                                   bounded="numProcessors in [%d,%d] (levels <= 6 overall: numProcessors <= 32 is the property's domain); gridSize symbolic in [0, INT_MAX/64]" % (lo, hi)))
+    P2CHK = ["--signed-overflow-check", "--div-by-zero-check", "--bounds-check", "--pointer-check", "--unwinding-assertions"]
+    for np_ in range(0, 9):
+        jobs.append(lambda np_=np_: cbmc_unit(ctx, "p2.init.np%02d" % np_, [p2_c], "h_init", no_dfcc=True,
+                                              cc_args=["-DNP_LO=%d" % np_, "-DNP_HI=%d" % np_, "-DBLK=4", "-DNO_REC", "-DNSQ_MAX=1", "-DLEVELS=2"],
+                                              cbmc_args=P2CHK + ["--unwind", "8", "--unwindset", "init.1:66"],
+                                              min_obligations=10, require_props=[r"h_init\.assertion"], function="Parallel2DExecutorImpl::init", timeout=280,
+                                              bounded="numProcessors = %d (one unit per value 0..8, bins <= 32; numProcessors 9..32 with 64 bins does not finish in the quick tier); gridSize symbolic in [0, INT_MAX/64]" % np_))
+    for L in range(2, 6):
+        nsq = (1 << L) * ((1 << L) - 2) // 2
+        jobs.append(lambda L=L, nsq=nsq: cbmc_unit(ctx, "p2.squares.L%d" % L, [p2_c], "h_squares", no_dfcc=True,
+                                                   cc_args=["-DNP_LO=2", "-DNP_HI=2", "-DBLK=4", "-DNSQ_MAX=%d" % nsq, "-DLEVELS=%d" % L],
+                                                   cbmc_args=P2CHK + ["--unwind", "8", "--unwindset", "h_squares.0:%d" % (nsq + 1)],
+                                                   min_obligations=4, require_props=[r"h_squares\.assertion"], function="Parallel2DExecutorImpl::addSquare/addTriangle", timeout=280,
+                                                   bounded="levels = %d (bins = %d; levels 2..5 cover numProcessors <= 16; levels = 6 does not finish in the quick tier), recursion fully unwound" % (L, 1 << L)))
     for h in ("h_triangle", "h_square"):
-        jobs.append(lambda h=h: cbmc_unit(ctx, "p2." + h[2:], [p2_c], h, no_dfcc=True, cc_args=["-DNP_LO=0", "-DNP_HI=1", "-DBLK=4"],
+        jobs.append(lambda h=h: cbmc_unit(ctx, "p2." + h[2:], [p2_c], h, no_dfcc=True, cc_args=["-DNP_LO=0", "-DNP_HI=1", "-DBLK=4", "-DNSQ_MAX=1", "-DLEVELS=2"],
                                           cbmc_args=P2CHK + ["--unwind", "10"], min_obligations=2, require_props=[h + r"\.assertion"],
                                           function="Parallel2DExecutorImpl::%sTask::execute" % ("Triangle" if "tri" in h else "Square"), timeout=280,
                                           bounded="bins at most 4 wide (blocks up to 8x8), 4 bins; range type symbolic"))
